@@ -317,7 +317,8 @@ func (ex *Exec) assert(c *Term, id string) {
 		ex.stats.Discharged++
 		ex.addPC(c)
 	case Sat:
-		ex.violation("assert", id, "assertion "+id+" can fail", m)
+		ex.violation("assert", id, "assertion "+id+" can fail "+ex.lastDiff, m)
+		ex.lastDiff = ""
 		// continue under the assumption that it holds, if possible
 		if !ex.feasible(c) {
 			panic(pathEnd{"done", "assertion always fails"})
@@ -515,7 +516,11 @@ func init() {
 	extraAPI = append(extraAPI, func(ex *Exec) {
 		tf := ex.tf
 		ex.intr["vf:vfDeepEqual"] = func(ex *Exec, fr *Frame, a []Value) Value {
-			return ex.deepEqual(a[0], a[1], map[[2]*Obj]bool{})
+			r := ex.deepEqual(a[0], a[1], map[[2]*Obj]bool{})
+			if !r.IsTrue() {
+				ex.lastDiff = ex.deepDiff(a[0], a[1], "", map[[2]*Obj]bool{})
+			}
+			return r
 		}
 		// vfField(v, "Name") -> field value boxed in interface{}; nil interface if absent
 		ex.intr["vf:vfField"] = func(ex *Exec, fr *Frame, a []Value) Value {
@@ -552,4 +557,84 @@ func init() {
 			return tf.Bool(false)
 		}
 	})
+}
+
+// deepDiff describes the first place where two values are not trivially equal (diagnostics only).
+func (ex *Exec) deepDiff(a, b Value, path string, seen map[[2]*Obj]bool) string {
+	switch x := a.(type) {
+	case *Term:
+		y, ok := b.(*Term)
+		if !ok || x.w != y.w || !ex.tf.Eq(x, y).IsTrue() {
+			return fmt.Sprintf("%s: %v vs %v", path, a, b)
+		}
+	case *StrV:
+		y, ok := b.(*StrV)
+		if !ok {
+			return path + ": string vs other"
+		}
+		if t, ok2 := ex.strEq(x, y); !ok2 || !t.IsTrue() {
+			return fmt.Sprintf("%s: %s vs %s", path, x, y)
+		}
+	case PtrV:
+		y, ok := b.(PtrV)
+		if !ok {
+			return path + ": pointer vs other"
+		}
+		if x.obj == nil || y.obj == nil {
+			if x.obj != y.obj {
+				return path + ": nil vs non-nil pointer"
+			}
+			return ""
+		}
+		if ptrEq(x, y) {
+			return ""
+		}
+		k := [2]*Obj{x.obj, y.obj}
+		if seen[k] {
+			return ""
+		}
+		seen[k] = true
+		return ex.deepDiff(ex.loadRaw(x), ex.loadRaw(y), path+"*", seen)
+	case *StructV:
+		y, ok := b.(*StructV)
+		if !ok || len(x.fields) != len(y.fields) {
+			return path + ": struct shape"
+		}
+		for i := range x.fields {
+			if d := ex.deepDiff(x.fields[i], y.fields[i], fmt.Sprintf("%s.f%d", path, i), seen); d != "" {
+				return d
+			}
+		}
+	case SliceV:
+		y, ok := b.(SliceV)
+		if !ok || (x.arr == nil) != (y.arr == nil) || x.len != y.len {
+			return fmt.Sprintf("%s: slice nil/len differs (%v,%d) vs (%v,%d)", path, x.arr == nil, x.len, y.arr == nil, y.len)
+		}
+		for i := 0; i < x.len; i++ {
+			if d := ex.deepDiff(x.arr.v.(*ArrayV).elems[x.off+i], y.arr.v.(*ArrayV).elems[y.off+i], fmt.Sprintf("%s[%d]", path, i), seen); d != "" {
+				return d
+			}
+		}
+	case IfaceV:
+		y, ok := b.(IfaceV)
+		if !ok {
+			return path + ": iface vs other"
+		}
+		if x.t == nil || y.t == nil {
+			if (x.t == nil) != (y.t == nil) {
+				return path + ": nil vs non-nil interface"
+			}
+			return ""
+		}
+		if !types.Identical(x.t, y.t) {
+			return fmt.Sprintf("%s: dynamic type %s vs %s", path, x.t, y.t)
+		}
+		return ex.deepDiff(x.v, y.v, path+"("+x.t.String()+")", seen)
+	case *MapV:
+		y, _ := b.(*MapV)
+		if (x == nil) != (y == nil) {
+			return path + ": nil vs non-nil map"
+		}
+	}
+	return ""
 }
